@@ -23,7 +23,10 @@ ROT2 = [0, 42, 359.5, 360, 370, 720.25, -10, -360, 1000.0, -0.5, 0.25,
         # other real number types (their % need not follow Python's sign
         # rule, their float() need not be exact)
         ['D', '-30'], ['D', '-0.5'], ['D', '725.25'], ['D', '-360'],
-        ['D', '100000000000000000001'], ['F', -1441, 4], ['F', 2885, 4]]
+        ['D', '100000000000000000001'], ['F', -1441, 4], ['F', 2885, 4],
+        # huge and not whole: the residue (x.5, x.25) is exact
+        ['F', 2 ** 61 + 1, 2], ['D', '1152921504606846976.5'],
+        ['F', -(2 ** 70) - 1, 4]]
 COMPS = [0, 1, -1, 0.5, 2, 10.25, -3.5, 100]
 
 
@@ -143,9 +146,19 @@ class Interp:
         self.uniq = 0
         self.last_owner = None
         self.transforms, self.dims, self.model = [], [], []
+        self.eqT = {}
         for i, spec in enumerate(self.cfg['transforms']):
             dim = spec['dim']
             T = d.Transform2D if dim == 2 else d.Transform3D
+            if self.cfg.get('teq'):
+                # transform subclasses with value equality (all of one
+                # class are equal and hash alike): each is still its own
+                # dispatcher with its own listeners
+                T = self.eqT.setdefault(dim, type(
+                    f'EqTransform{dim}D', (T,), {
+                        '__eq__': lambda a, b: type(a) is type(b),
+                        '__hash__': lambda a: 17}))
+                self.probes['transforms_with_value_equality'] += 1
             kw = {k: self.value(dim, k, v)
                   for k, v in (spec.get('ctor') or {}).items()}
             t = T(**kw)
@@ -536,6 +549,7 @@ def generate(prop, run_seed, tier='quick', tolerate=frozenset()):
     listeners = [crng.randrange(len(lclasses))
                  for _ in range(crng.randint(1, 4))]
     cfg = {'policy': crng.choice(kernel.POLICIES), 'transforms': transforms,
+           'teq': crng.random() < .1,
            'lclasses': lclasses, 'listeners': listeners}
     cfg.update(extra)
     ops = []
